@@ -116,51 +116,104 @@ def _ancestors(node, par):
     return out
 
 
+def _blocks_of(node):
+    for fld in ("body", "orelse", "finalbody"):
+        b = getattr(node, fld, None)
+        if isinstance(b, list) and b and isinstance(b[0], ast.stmt):
+            yield b
+    for h in getattr(node, "handlers", []) or []:
+        yield h.body
+
+
+def _block_and_index(stmt, par):
+    p = par.get(stmt)
+    if p is None:
+        return None, None
+    for b in _blocks_of(p):
+        for i, s in enumerate(b):
+            if s is stmt:
+                return b, i
+    return None, None
+
+
+def _iter_is(it, source_text, f):
+    if ast.unparse(it) == source_text:
+        return True
+    if isinstance(it, ast.Call) and isinstance(it.func, ast.Name) and it.func.id in ("sorted", "list", "tuple", "reversed") and it.args \
+            and ast.unparse(it.args[0]) == source_text:
+        return True
+    if isinstance(it, ast.Name):
+        defs = [n for n in ast.walk(f.node) if isinstance(n, ast.Assign) and len(n.targets) == 1 and
+                isinstance(n.targets[0], ast.Name) and n.targets[0].id == it.id]
+        if len(defs) == 1:
+            return _iter_is(defs[0].value, source_text, f) if not isinstance(defs[0].value, ast.Name) else ast.unparse(defs[0].value) == source_text
+    return False
+
+
 def _flag_proves_nonempty(call, source_text, f, par):
-    """The call sits where `FLAG` is false, FLAG starts True and is cleared only inside a loop over (a sorted /
-    listed copy of) the same collection: the loop body ran, so the collection is not empty."""
-    for anc, child in _ancestors(call, par):
-        if not isinstance(anc, ast.If):
+    """The call sits where `FLAG` is known false; FLAG is set True in a block, and cleared only inside a following loop
+    (same block) over (a sorted / listed copy of) the same collection: the loop body ran, so the collection has an
+    element.  `FLAG is false` is known in the else-branch of `if FLAG`, the body of `if not FLAG`, or after an
+    `if FLAG: break / return / continue / raise` earlier in an enclosing block."""
+    flags = {}
+    for n in ast.walk(f.node):
+        if isinstance(n, ast.Assign) and len(n.targets) == 1 and isinstance(n.targets[0], ast.Name) and \
+                isinstance(n.value, ast.Constant) and isinstance(n.value.value, bool):
+            flags.setdefault(n.targets[0].id, []).append(n)
+    chain = _ancestors(call, par)                       # (ancestor, child) pairs, innermost first
+    for flag, sets in flags.items():
+        others = [n for n in ast.walk(f.node) if isinstance(n, ast.Name) and n.id == flag and isinstance(n.ctx, (ast.Store, ast.Del))]
+        if len(others) != len(sets):
+            continue                                    # assigned in some other way too
+        trues = [s for s in sets if s.value.value is True]
+        falses = [s for s in sets if s.value.value is False]
+        if len(trues) != 1 or not falses:
             continue
-        t = anc.test
-        flag = None
-        if isinstance(t, ast.Name) and child in anc.orelse:
-            flag = t.id
-        elif isinstance(t, ast.UnaryOp) and isinstance(t.op, ast.Not) and isinstance(t.operand, ast.Name) and child in anc.body:
-            flag = t.operand.id
-        if flag is None:
+        T = trues[0]
+        B, ti = _block_and_index(T, par)
+        if B is None:
             continue
-        sets = [n for n in ast.walk(f.node) if isinstance(n, ast.Assign) and len(n.targets) == 1 and
-                isinstance(n.targets[0], ast.Name) and n.targets[0].id == flag]
-        trues = [s for s in sets if isinstance(s.value, ast.Constant) and s.value.value is True]
-        falses = [s for s in sets if isinstance(s.value, ast.Constant) and s.value.value is False]
-        if len(trues) != 1 or not falses or len(trues) + len(falses) != len(sets):
+        # the clearing loop: a For in B after T that contains every False-assignment and iterates the collection
+        loops = [s for s in B[ti + 1:] if isinstance(s, ast.For) and all(any(x is fs for x in ast.walk(s)) for fs in falses)]
+        if len(loops) != 1 or not _iter_is(loops[0].iter, source_text, f):
             continue
-        if any(isinstance(a, (ast.For, ast.While, ast.If)) for a, _ in _ancestors(trues[0], par)):
+        li = B.index(loops[0])
+        # where is the call relative to B?
+        top = None
+        for anc, child in [(None, call)] + chain:
+            node = child if anc is None else child
+            if any(node is s for s in B[li + 1:]):
+                top = node
+        if top is None:
             continue
-        ok = True
-        for s in falses:
-            loops = [a for a, ch in _ancestors(s, par) if isinstance(a, ast.For) and ch in a.body]
-            good = False
-            for lp in loops:
-                it = lp.iter
-                txt = ast.unparse(it)
-                if txt == source_text:
-                    good = True
-                if isinstance(it, ast.Name):
-                    # alias assigned once from sorted(X, ...) / list(X) / X
-                    defs = [n for n in ast.walk(f.node) if isinstance(n, ast.Assign) and len(n.targets) == 1 and
-                            isinstance(n.targets[0], ast.Name) and n.targets[0].id == it.id]
-                    if len(defs) == 1:
-                        v = defs[0].value
-                        if ast.unparse(v) == source_text:
-                            good = True
-                        if isinstance(v, ast.Call) and isinstance(v.func, ast.Name) and v.func.id in ("sorted", "list", "tuple", "reversed") \
-                                and v.args and ast.unparse(v.args[0]) == source_text:
-                            good = True
-            ok = ok and good and s.lineno < call.lineno and trues[0].lineno < s.lineno
-        if ok:
-            return f"reached only where `{flag}` is false; `{flag}` is cleared only inside the loop over {source_text}, so that collection has an element"
+        # knowledge that FLAG is false at the call
+        known = False
+        for anc, child in chain:
+            if isinstance(anc, ast.If):
+                t = anc.test
+                if isinstance(t, ast.Name) and t.id == flag and any(child is s for s in anc.orelse):
+                    known = True
+                if isinstance(t, ast.UnaryOp) and isinstance(t.op, ast.Not) and isinstance(t.operand, ast.Name) and t.operand.id == flag \
+                        and any(child is s for s in anc.body):
+                    known = True
+            if anc is par.get(T) or child is top:
+                pass
+        # after `if FLAG: <terminator>` in an enclosing block at or below B
+        node = call
+        while node is not None and not known:
+            blk, k = _block_and_index(node, par) if isinstance(node, ast.stmt) else (None, None)
+            if blk is not None:
+                lo = li + 1 if blk is B else 0
+                for s in blk[lo:k]:
+                    if isinstance(s, ast.If) and isinstance(s.test, ast.Name) and s.test.id == flag and not s.orelse and s.body and \
+                            isinstance(s.body[-1], (ast.Break, ast.Return, ast.Continue, ast.Raise)):
+                        known = True
+                if blk is B:
+                    break
+            node = par.get(node)
+        if known:
+            return (f"reached only where `{flag}` is false; `{flag}` is cleared only inside the loop over {source_text} at line "
+                    f"{loops[0].lineno}, so that collection has an element")
     return None
 
 
@@ -429,7 +482,56 @@ def termination(rep, idx, ef):
     for f in idx.all_functions():
         for n in ast.walk(f.node):
             if isinstance(n, ast.While):
-                rep.unk("C19.2", f.site, f"while {ast.unparse(n.test)[:50]}", "a while loop needs a recognisable variant; none of the verified loop shapes applies")
+                verdict, why = classify_while(n)
+                what = f"while {ast.unparse(n.test)[:50]}"
+                if verdict == "ok":
+                    rep.ok("C19.2", f.site, what, why)
+                else:
+                    rep.unk("C19.2", f.site, what, why)
+
+
+def classify_while(loop):
+    """Bounded-variant shape: a counter / size grows by a constant step (or factor) in every iteration that goes round
+    again, and either the loop test or a top-level `if V >= BOUND: raise / break / return` stops it at a bound that the
+    body does not change."""
+    def own(node):
+        # nodes of the body that belong to this loop (not to nested loops / functions), for continue-detection
+        for ch in ast.iter_child_nodes(node):
+            if isinstance(ch, (ast.For, ast.While, ast.FunctionDef, ast.Lambda)):
+                continue
+            yield ch
+            yield from own(ch)
+    if any(isinstance(x, ast.Continue) for s in loop.body for x in [s] + list(own(s))):
+        return "unk", "the loop body uses `continue`; the growth statement may be skipped"
+    stored = set()
+    for s in loop.body:
+        for x in ast.walk(s):
+            if isinstance(x, (ast.Name, ast.Attribute)) and isinstance(getattr(x, "ctx", None), ast.Store):
+                stored.add(ast.unparse(x))
+    grown = []
+    for s in loop.body:
+        if isinstance(s, ast.AugAssign) and isinstance(s.value, ast.Constant) and isinstance(s.value.value, int) and \
+                isinstance(s.op, (ast.Mult, ast.Add, ast.LShift)) and s.value.value >= (2 if isinstance(s.op, ast.Mult) else 1):
+            grown.append(ast.unparse(s.target))
+
+    def fixed(bound, g):
+        comp = {x.id for c in ast.walk(bound) if isinstance(c, ast.comprehension) for x in ast.walk(c.target) if isinstance(x, ast.Name)}
+        names = {ast.unparse(x) for x in ast.walk(bound) if isinstance(x, (ast.Name, ast.Attribute))}
+        names = {n for n in names if n.split(".")[0] not in comp}
+        return g not in names and not (names & stored)
+    for g in grown:
+        t = loop.test
+        if isinstance(t, ast.Compare) and len(t.ops) == 1 and isinstance(t.ops[0], (ast.Lt, ast.LtE)) and ast.unparse(t.left) == g and \
+                fixed(t.comparators[0], g):
+            return "ok", f"bounded variant: {g} grows in every iteration and the loop runs only while `{ast.unparse(t)}`"
+        for s in loop.body:
+            if isinstance(s, ast.If) and s.body and isinstance(s.body[-1], (ast.Raise, ast.Break, ast.Return)):
+                c = s.test
+                if isinstance(c, ast.Compare) and len(c.ops) == 1 and isinstance(c.ops[0], (ast.GtE, ast.Gt)) and ast.unparse(c.left) == g and \
+                        fixed(c.comparators[0], g):
+                    return "ok", (f"bounded variant: {g} grows in every iteration that goes round again and `{ast.unparse(c)[:60]}` "
+                                  f"leaves the loop ({type(s.body[-1]).__name__.lower()}) at a bound the body does not change")
+    return "unk", "a while loop needs a recognisable variant; none of the verified loop shapes applies"
 
 
 def _delegates_elsewhere(idx, ef, f, recv):
